@@ -110,4 +110,32 @@ example : counterVals .gtq .dec 10 5 2 = [5, 4, 3, 2] := by decide
 example : counterVals .nq .dec 10 3 0 = [3, 2, 1] := by decide
 example : (List.range (5 + 1 - 2 : Int).toNat).map (fun (i : Nat) => (2 : Int) + (i : Int)) = [2, 3, 4, 5] := by decide
 
+/-! ### Bounds given as text (repair: `text2int`) -/
+
+/-- A bound variable holding text that is a decimal integer within `int64` is that integer. -/
+theorem textBound_good (s : Bytes) (c1 : Ctx) (n : Int) (hne : s.isEmpty = false) (hp : parseInt64Lit s = some n) :
+    textBound s c1 = (.ok n, c1) := by
+  unfold textBound; simp [hne, hp]
+
+/-- **A bad loop bound is an error, never a number.** Text that is not an integer — or is an integer beyond
+    `int64`, for which `ParseInt` returns the nearest limit next to its error — makes `cloopRange` fail with the
+    wrong-bound error; with `loopBounds_none_no_iteration` below the loop then renders nothing. (Before the
+    repair `"99999999999999999999"` became the bound 9223372036854775807 and the loop ran "forever".) -/
+theorem textBound_bad (s : Bytes) (c1 : Ctx) (hne : s.isEmpty = false) (hp : parseInt64Lit s = none) :
+    textBound s c1 = (.error .wrongLoopLim, { c1 with err := some .wrongLoopLim }) := by
+  unfold textBound; simp [hne, hp]
+
+/-- When a bound cannot be determined the loop body never runs (nor does the else branch): the state is the one
+    `loopBounds` left, with `ctx.Err` set by `cloopRange`. -/
+theorem loopBounds_none_no_iteration (run : St → Res) (runElse : Option (St → Res)) (fuel : Nat) (ls : CLoopSpec) (s : St)
+    (h : (loopBounds s.c ls).2 = none) :
+    cloopWith run runElse fuel ls s = ok { s with c := (loopBounds s.c ls).1 } := by
+  unfold cloopWith cloopAfter
+  rw [h]
+
+/-- Out of range is not a number: twenty nines. -/
+example : parseInt64Lit (lit "99999999999999999999") = none := by decide
+example : parseInt64Lit (lit "3.0") = none := by decide
+example : parseInt64Lit (lit "-9223372036854775808") = some (-9223372036854775808) := by decide
+
 end DyntplV.C03N
